@@ -892,6 +892,102 @@ func headerSection(r *hx.Rng, keys []kp, thorough bool) {
 			res.Count(fmt.Sprintf("overlong:%s:accepted=%v", kind, acc), id([]byte("O"), carried, k.pk), true)
 			cs.Add(fmt.Sprintf("CO %s %s", hx.CoqHex(carried), hx.CoqHex(out)), map[string]interface{}{"kind": "overlong", "in": in3})
 		}
+		// (4) adversarial headers: every field the VRF path reads or might read is changed on an honest
+		// pair; verifyBlockVRF must accept exactly when the carried proof verifies, under the castor's key,
+		// for the message determined by (preBH.Random, preBH.CurTime, bh.CurTime), qualifies, and TotalQN fits
+		if i < 6 || thorough {
+			step := time.Duration(model.MAX_GROUP_BLOCK_TIME) * time.Second
+			proofs := map[int][]byte{}
+			for _, dd := range []int{1, 2, 3, 10} {
+				proofs[dd] = proveGuard(clone(k.pk), clone(k.sk), refVrfMsg(R, dd))
+			}
+			pair := func(pi []byte) (*types.BlockHeader, *types.BlockHeader, *model.MinerInfo) {
+				_, q, _ := validate(pi, 6, 0, 1)
+				p := &types.BlockHeader{Random: clone(R), CurTime: t0, Height: 5, TotalQN: 7}
+				b := &types.BlockHeader{ProveValue: new(big.Int).SetBytes(pi), CurTime: castTime, PreTime: t0, Height: 6, TotalQN: 7 + q, Castor: []byte{1, 2, 3}}
+				return b, p, &model.MinerInfo{VrfPK: clone(k.pk), WorkingMiners: 0}
+			}
+			check := func(field, note string, b, p *types.BlockHeader, c *model.MinerInfo) {
+				carried := b.ProveValue.Bytes()
+				dExp := logical.CalDeltaByTime(b.CurTime, p.CurTime)
+				okv, qn, pn := validate(carried, b.Height, c.WorkingMiners, 1)
+				vcl := verifyClass(c.VrfPK, carried, refVrfMsg(p.Random, dExp))
+				expected := pn == nil && vcl == "accept" && okv && b.TotalQN == qn+p.TotalQN
+				got, perr := func() (g bool, e interface{}) {
+					defer func() {
+						if x := recover(); x != nil {
+							e = x
+						}
+					}()
+					g, _ = logical.VerifVRFVerifyBlockVRF(b, p, c, 1)
+					return
+				}()
+				res.Count(fmt.Sprintf("adversarial-header:%s:accepted=%v", field, got), id([]byte("A"), k.pk, R, []byte(field+note)), true)
+				if got != expected || perr != nil {
+					res.Violate("C16/message-binding:header-field:"+field,
+						fmt.Sprintf("verifyBlockVRF returns %v (panic %v) but the carried proof %s for the message of delta=%d from (preBH.Random, preBH.CurTime, bh.CurTime), qualified=%v, TotalQN fits=%v: %s",
+							got, perr, map[bool]string{true: "verifies", false: "does not verify"}[vcl == "accept"], dExp, okv, b.TotalQN == qn+p.TotalQN, note),
+						map[string]interface{}{"pk": hexs(k.pk), "sk_seed": hexs(k.sk[:32]), "random": hexs(p.Random), "honest_delta": d, "prove_value": hexs(carried),
+							"bh.CurTime-t0": b.CurTime.Sub(t0).String(), "bh.PreTime-t0": b.PreTime.Sub(t0).String(), "bh.PreTime.IsZero": b.PreTime.IsZero(), "preBH.CurTime-t0": p.CurTime.Sub(t0).String(),
+							"bh.Height": b.Height, "bh.TotalQN": b.TotalQN, "preBH.TotalQN": p.TotalQN, "mutated_field": field, "expected_accept": expected})
+				}
+			}
+			b, p, c := pair(wantPi)
+			check("none", "honest pair", b, p, c)
+			for _, dd := range []int{1, 2, 3, 10} {
+				if dd == d {
+					continue
+				}
+				// a proof for another delta, with bh.PreTime chosen so that (bh.CurTime - bh.PreTime) gives that delta
+				b, p, c = pair(proofs[dd])
+				b.PreTime = b.CurTime.Add(-time.Duration(dd-1)*step - 300*time.Millisecond)
+				check("PreTime", fmt.Sprintf("proof for delta %d, PreTime set to match it", dd), b, p, c)
+				b, p, c = pair(proofs[dd])
+				check("ProveValue", fmt.Sprintf("proof for delta %d, honest times", dd), b, p, c)
+				// the same proof IS the right one when bh.CurTime really moves
+				b, p, c = pair(proofs[dd])
+				b.CurTime = t0.Add(time.Duration(dd-1)*step + 300*time.Millisecond)
+				check("CurTime", fmt.Sprintf("bh.CurTime moved to delta %d with the proof for it", dd), b, p, c)
+				b, p, c = pair(wantPi)
+				b.CurTime = t0.Add(time.Duration(dd-1)*step + 300*time.Millisecond)
+				check("CurTime", fmt.Sprintf("bh.CurTime moved to delta %d with the proof for delta %d", dd, d), b, p, c)
+				b, p, c = pair(wantPi)
+				p.CurTime = castTime.Add(-time.Duration(dd-1)*step - 300*time.Millisecond)
+				check("preBH.CurTime", fmt.Sprintf("preBH.CurTime moved so that delta is %d", dd), b, p, c)
+			}
+			for _, pt := range []time.Time{{}, t0.Add(-step), t0.Add(step), t0.Add(3 * step), castTime, castTime.Add(step)} {
+				b, p, c = pair(wantPi)
+				b.PreTime = pt
+				check("PreTime", "honest proof, bh.PreTime changed", b, p, c)
+			}
+			b, p, c = pair(wantPi)
+			p.Random = flip(p.Random, r.Intn(256))
+			check("preBH.Random", "one bit of preBH.Random flipped", b, p, c)
+			b, p, c = pair(wantPi)
+			b.Height += uint64(1 + r.Intn(1000))
+			check("Height", "bh.Height changed (no difficulty switch with workingMiners = 0)", b, p, c)
+			b, p, c = pair(wantPi)
+			b.Castor = []byte{9, 9}
+			check("Castor", "bh.Castor changed (the castor's MinerInfo is passed by the caller)", b, p, c)
+			b, p, c = pair(wantPi)
+			c.VrfPK = flip(c.VrfPK, r.Intn(256))
+			check("castor.VrfPK", "one bit of the castor's VRF key flipped", b, p, c)
+			b, p, c = pair(flip(wantPi, r.Intn(640)))
+			check("ProveValue", "one bit of the prove value flipped", b, p, c)
+			b, p, c = pair(wantPi)
+			b.TotalQN++
+			check("TotalQN", "bh.TotalQN + 1", b, p, c)
+			b, p, c = pair(wantPi)
+			p.TotalQN++
+			check("preBH.TotalQN", "preBH.TotalQN + 1", b, p, c)
+			// CalDeltaByTime against the model (incl. negative intervals)
+			for _, ms := range []int64{0, 300, 1999, 2000, 2001, 3999, 4000, 18300, -1, -1999, -2000, -4001, int64(r.Intn(100000)) - 30000} {
+				a1 := t0.Add(time.Duration(ms) * time.Millisecond)
+				cs.Add(fmt.Sprintf("CDt %s %s %s", zlit(big.NewInt(a1.UnixNano())), zlit(big.NewInt(t0.UnixNano())), zlit(big.NewInt(int64(logical.CalDeltaByTime(a1, t0))))),
+					map[string]interface{}{"kind": "delta", "after-before_ms": ms})
+			}
+		}
+
 		nl := 3
 		if thorough {
 			nl = 8
@@ -1060,6 +1156,7 @@ func min(a, b int) int {
 
 func main() {
 	a := hx.ParseArgs()
+	reexecUnderGorace(a.Out)
 	r := hx.NewRng(a.Seed)
 	thorough := a.Tier == "thorough"
 	if thorough {
@@ -1069,7 +1166,7 @@ func main() {
 		"the proof encoding starts with >= 1 zero byte; an adversarial case counts when a shifted proof was built; a qn case counts when " +
 		"validateProve accepted or panicked; an isCanonical case counts when the input is a non-reduced encoding; a scalar case counts when " +
 		"s = (c*x+k) mod ell was compared for an honest proof and s + j*ell was submitted to VRFVerify; a purity case counts when the in-place/reordered " +
-		"call sequence of one key was run to the end; a header case counts when genVrfMsg / genProve / verifyBlockVRF were run repeatedly on the same header objects or an over-long prove value " +
+		"call sequence of one key was run to the end; a concurrency case counts per goroutine that ran its loop; an adversarial-header case counts per mutated header pair sent through verifyBlockVRF; a header case counts when genVrfMsg / genProve / verifyBlockVRF were run repeatedly on the same header objects or an over-long prove value " +
 		"went through verifyBlockVRF; a curve case counts when values extracted from edwards25519 (decompression of a non-random or valid string, " +
 		"Double/GeSub coordinates, short scalar mults, the U/V of a whole verification, shifted vs honest Gamma) were handed to the curve model")
 	cs = hx.NewCases(a.Out, "From V.C16 Require Import Model Harness.", "case", "check", 300)
@@ -1408,12 +1505,19 @@ func main() {
 	res.Note(fmt.Sprintf("header level: genVrfMsg on reused Random slices (delta 0,1,2,3,10), genProve and verifyBlockVRF twice on the same header objects, "+
 		"over-long prove values (suffix junk, prefix junk, + k*2^640) through verifyBlockVRF (%.1fs)", time.Since(t0).Seconds()))
 
+	// ---------- 6c. concurrency ----------
+	concurrencySection(r, keys, thorough)
+
 	// ---------- 7. curve layer ----------
 	t0 = time.Now()
 	curveSection(r, keys, thorough)
 	res.Note(fmt.Sprintf("curve layer: %d single-step cases (decompress / Double / GeSub / ToBytes / short scalar mults) and %d whole-verification or subgroup cases extracted (%.1fs)",
 		cv.Total(), cw.Total(), time.Since(t0).Seconds()))
 
+	if raceEnabled {
+		n := collectRaceReports(a.Out)
+		res.Note(fmt.Sprintf("race detector active (GORACE halt_on_error=0): %d report(s) in total", n))
+	}
 	cs.Close()
 	cv.Close()
 	cw.Close()
